@@ -1,4 +1,5 @@
 import Ogen.HandlerStages_proof
+import Ogen.Generated.Facts_tmpl
 /-!
 # C15 — every request is answered, nothing is over-accepted (partial: the stage machine)
 
@@ -39,6 +40,23 @@ theorem handler_error_status (o : Outcomes) (hr : o.route = .found) (hs : o.secu
   unfold handle
   simp [hr, hs, hp, hb]
   cases o.handler <;> rfl
+
+/-- the order in which `Stages.handle` consults its inputs (after routing) -/
+def modelStageOrder : List String := ["security", "params", "body", "handler", "encode"]
+
+/-- **(regenerated facts) the template runs the stages in the model's order**, and between a failing stage's
+    marker and the next stage there is at least one `return` (the early exit the model's `if … else` stands
+    for) — read off the text of `gen/_template/handlers.tmpl` on every run -/
+theorem facts_stage_order :
+    Facts.Tmpl.stageOrder = modelStageOrder ∧
+    Facts.Tmpl.returnsAfter.map (·.1) = ["security", "params", "body", "handler"] ∧
+    Facts.Tmpl.returnsAfter.all (fun s => 1 ≤ s.2) = true := by decide
+
+/-- (regenerated facts) an optional request body counts as absent only when there is neither a Content-Type
+    header nor any body byte — the conjunction, not the disjunction -/
+theorem facts_optional_body :
+    Facts.Tmpl.optionalBodyShortcut = "if _, ok := r.Header[\"Content-Type\"]; !ok && r.ContentLength == 0 {" := by
+  decide
 
 example : handle ⟨.found, true, false, none, .ok 200⟩ = ⟨[400], false⟩ := by decide
 example : handle ⟨.found, true, true, none, .otherError⟩ = ⟨[500], true⟩ := by decide
